@@ -354,6 +354,22 @@ class StmtMixin:
                 if not rebound and lo < hi:
                     n2 = ast.copy_location(ast.For(target=n.target, iter=asg[0].value, body=n.body, orelse=n.orelse), n)
                     return self._desugared_for(n2, st, fx)
+        if isinstance(it, ast.Name) and not n.orelse and it.id not in fx.func.params:
+            # work = [E1 for ..]; work += [E2 for ..]; ...; for x in work: BODY  - a work list written out and then walked, the name
+            # used for nothing else: the loops over the comprehensions, one after the other
+            uses = [x for x in ast.walk(fx.func.node) if isinstance(x, ast.Name) and x.id == it.id]
+            defs = [x for x in ast.walk(fx.func.node) if (isinstance(x, ast.Assign) and len(x.targets) == 1 and isinstance(x.targets[0], ast.Name)
+                                                          and x.targets[0].id == it.id)
+                    or (isinstance(x, ast.AugAssign) and isinstance(x.op, ast.Add) and isinstance(x.target, ast.Name) and x.target.id == it.id)]
+            defs.sort(key=lambda x: x.lineno)
+            if defs and len(uses) == len(defs) + 1 and isinstance(defs[0], ast.Assign) and all(isinstance(x, ast.AugAssign) for x in defs[1:]) \
+                    and all(isinstance(x.value, ast.ListComp) for x in defs) and all(x.lineno < n.lineno for x in defs) \
+                    and not any(isinstance(x, ast.Break) for b in n.body for x in ast.walk(b)):
+                out = []
+                for d in defs:
+                    f2 = ast.copy_location(ast.For(target=n.target, iter=d.value, body=n.body, orelse=[]), n)
+                    out.extend(self._desugared_for(f2, st, fx) or [f2])
+                return out
         if isinstance(it, ast.Call) and not it.keywords and not any(isinstance(a, ast.Starred) for a in it.args):
             nm = it.func.attr if isinstance(it.func, ast.Attribute) else (it.func.id if isinstance(it.func, ast.Name) else None)
             if nm == "chain" and it.args and not n.orelse and not any(isinstance(x, (ast.Break,)) for b in n.body for x in ast.walk(b)):
